@@ -59,6 +59,11 @@ pub struct Octree {
     /// This is indexed by cell leaf index; the exact shape depends heavily on
     /// the number of intersections and vertices within each leaf.
     pub(crate) verts: Vec<CellVertex<3>>,
+
+    /// True if the world-to-model transform applied to the vertices is a
+    /// reflection (negative determinant), so triangle winding must be flipped
+    /// to stay outward-facing in model space
+    pub(crate) mirrored: bool,
 }
 
 impl Octree {
@@ -68,6 +73,7 @@ impl Octree {
             root: Cell::Invalid,
             cells: vec![],
             verts: vec![],
+            mirrored: false,
         }
     }
 
@@ -90,6 +96,11 @@ impl Octree {
                 let q = settings.world_to_model.transform_point(&p);
                 v.pos = q.coords;
             }
+            out.mirrored = settings
+                .world_to_model
+                .fixed_view::<3, 3>(0, 0)
+                .determinant()
+                < 0.0;
         }
         Some(out)
     }
@@ -241,7 +252,7 @@ impl Octree {
 
     /// Recursively walks the dual of the octree, building a mesh
     pub fn walk_dual(&self) -> Mesh {
-        let mut mesh = MeshBuilder::default();
+        let mut mesh = MeshBuilder::new(self.mirrored);
 
         mesh.cell(self, CellIndex::default());
         mesh.take()
